@@ -475,6 +475,14 @@ impl RequestIdManager {
 		self.id_kind.into_id(self.current_id.next())
 	}
 
+	/// Reserves `len` consecutive request IDs for a batch request and returns them as a range.
+	///
+	/// The whole range is taken from the allocator such that no later request gets an ID of the batch.
+	pub fn next_batch_id_range(&self, len: u64) -> Result<Range<u64>, Error> {
+		let n = usize::try_from(len).map_err(|_| Error::Custom("Batch request is too large".to_string()))?;
+		generate_batch_id_range(Id::Number(self.current_id.next_n(n)), len)
+	}
+
 	/// Get a handle to the `IdKind`.
 	pub fn as_id_kind(&self) -> IdKind {
 		self.id_kind
@@ -509,8 +517,13 @@ impl CurrentId {
 	}
 
 	fn next(&self) -> u64 {
+		self.next_n(1)
+	}
+
+	/// Reserves `n` consecutive IDs and returns the first one.
+	fn next_n(&self, n: usize) -> u64 {
 		self.0
-			.fetch_add(1, Ordering::Relaxed)
+			.fetch_add(n, Ordering::Relaxed)
 			.try_into()
 			.expect("usize -> u64 infallible, there are no CPUs > 64 bits; qed")
 	}
